@@ -69,11 +69,11 @@ L(op, a, b, t, nt) == [op |-> op, a |-> a, b |-> b, t |-> t, nt |-> nt]
 \* lines that may be appended to a program; I/O lines of one processor are kept at least three
 \* lines apart (the synchronous handshake of the pinned tree needs the spacing, see the known
 \* findings of C04)
-Plain ==
-  {L(o, a, 0, 0, "") : o \in {"clr", "inc", "dec"}, a \in Regs} \cup
-  {L(o, a, b, 0, "") : o \in {"add", "cpy", "movrr"}, a \in Regs, b \in Regs} \cup
-  {L(o, a, b, 0, nt) : o \in {"rset", "movri"}, a \in Regs, b \in Lits, nt \in Notations} \cup
-  {L("nop", 0, 0, 0, ""), L("twice", 0, 0, 0, "")}
+Unary  == {L(o, a, 0, 0, "") : o \in {"clr", "inc", "dec"}, a \in Regs}
+Binary == {L(o, a, b, 0, "") : o \in {"add", "cpy", "movrr"}, a \in Regs, b \in Regs}
+Loads  == {L(o, a, b, 0, nt) : o \in {"rset", "movri"}, a \in Regs, b \in Lits, nt \in Notations}
+Other  == {L("nop", 0, 0, 0, ""), L("twice", 0, 0, 0, "")}
+Plain  == Unary \cup Binary \cup Loads \cup Other
 Jumps == {L("j", 0, 0, t, "") : t \in 0 .. Len0 - 1} \cup {L("jz", a, 0, t, "") : a \in Regs, t \in 0 .. Len0 - 1}
 Sends == {L("send", o, b, 0, "") : o \in 0 .. NOut - 1, b \in Regs}
 Recvs == {L("recv", a, 0, 0, "") : a \in Regs}
@@ -100,6 +100,10 @@ Add(l, io) ==
   /\ UNCHANGED <<phase, shape, ref, asc, steps>>
 IoOK == Len(Cur) - lastio >= 3
 BuildPlain == \E l \in Plain : Add(l, FALSE)
+BuildUnary == \E l \in Unary : Add(l, FALSE)
+BuildBinary == \E l \in Binary : Add(l, FALSE)
+BuildLoad == \E l \in Loads : Add(l, FALSE)
+BuildOther == \E l \in Other : Add(l, FALSE)
 BuildMacro == Add(L("twice", 0, 0, 0, ""), FALSE)
 BuildJump == \E l \in Jumps : Add(l, FALSE)
 BuildSend == \E l \in Sends : Add(l, TRUE)
@@ -179,14 +183,17 @@ Exec ==
 \* TLC -simulate chooses uniformly among the sub-actions it can split Next into (it splits a
 \* top-level \E over a constant set, but not below an IF): the outer choice w draws the KIND of the
 \* next line with fixed odds, whatever the number of lines of each kind
-Next == \E w \in 1 .. 8 :
+Next == \E w \in 1 .. 10 :
           IF phase = "build" /\ Len(Cur) < Len0 - 1
-          THEN (IF w <= 2 THEN BuildPlain
-                ELSE IF w = 3 THEN (IF MacroHeavy THEN BuildMacro ELSE BuildPlain)
-                ELSE IF w = 4 THEN BuildJump
-                ELSE IF w <= 6 THEN (IF IoOK THEN BuildSend ELSE BuildPlain)
-                ELSE IF w = 7 THEN (IF IoOK THEN BuildRecv ELSE BuildJump)
-                ELSE (IF NData > 0 THEN BuildData ELSE BuildPlain))
+          THEN (IF w = 1 THEN BuildUnary
+                ELSE IF w = 2 THEN BuildBinary
+                ELSE IF w = 3 THEN BuildLoad
+                ELSE IF w = 4 THEN (IF MacroHeavy THEN BuildMacro ELSE BuildOther)
+                ELSE IF w = 5 THEN BuildJump
+                ELSE IF w <= 7 THEN (IF IoOK THEN BuildSend ELSE BuildLoad)
+                ELSE IF w = 8 THEN (IF IoOK THEN BuildRecv ELSE BuildJump)
+                ELSE IF w = 9 THEN (IF NData > 0 THEN BuildData ELSE BuildUnary)
+                ELSE BuildPlain)
           ELSE (w = 1 /\ (Close \/ NextCP \/ Start \/ Exec))
 Spec == Init /\ [][Next]_vars
 
